@@ -288,14 +288,14 @@ int KSI_TLV_setRawValue(KSI_TLV *tlv, const void *data, size_t data_len) {
 		}
 	}
 
-	tlv->datap = tlv->buffer;
-	tlv->datap_len = data_len;
-
-	/* Double check the boundaries. */
+	/* Double check the boundaries before the value is touched. */
 	if (tlv->buffer_size < data_len) {
 		KSI_pushError(tlv->ctx, res = KSI_BUFFER_OVERFLOW, NULL);
 		goto cleanup;
 	}
+
+	tlv->datap = tlv->buffer;
+	tlv->datap_len = data_len;
 
 	if (tlv->nested != NULL) {
 		KSI_TLVList_free(tlv->nested);
